@@ -77,7 +77,9 @@ func DecodeTuple(tuple *HeapTupleData, columns []Column) map[string]interface{} 
 		// Special handling for varlena: short varlena uses 1-byte alignment
 		if col.Len == -1 && offset < len(tuple.Data) {
 			// Try 1-byte alignment first to check for short varlena
-			if isShortVarlena(tuple.Data[offset:]) {
+			// att_align_pointer: alignment padding is always zero bytes, so a non-zero byte at the
+			// current offset is a 1-byte varlena header (short value or external pointer) stored unaligned
+			if tuple.Data[offset] != 0 {
 				colAlign = 1
 			}
 		}
